@@ -330,12 +330,12 @@ def obj_eq(I, a, b):
                 return obj_eq(I, b, a)
         return a is b
     f, defcls = r
-    if isinstance(f, types.FunctionType) and I.is_interp_func(f):
+    if isinstance(f, types.FunctionType) and I.is_interp_func(f) and f.__code__.co_filename != "<string>":
         res = I.call_function(f, [a, b], {}, defcls=defcls)
         if res is NotImplemented:
             return a is b
         return res
-    if dataclasses.is_dataclass(defcls) and getattr(f, "__qualname__", "").endswith("__create_fn__.<locals>.__eq__"):
+    if dataclasses.is_dataclass(defcls) and getattr(getattr(f, "__code__", None), "co_filename", "") == "<string>":
         if not isinstance(b, SObj) or b.cls is not a.cls:
             return False
         flds = [x.name for x in dataclasses.fields(a.cls) if x.compare]
